@@ -1,4 +1,4 @@
 -------------------------- MODULE Gen_SurveyObject --------------------------
 EXTENDS SurveyObject, Json
-Emit == (Len(hist) > 0 /\ hist[Len(hist)][1] = "render") => PrintT(ToJson([hist |-> hist]))
+Emit == (Len(hist) > 0 /\ hist[Len(hist)][1] = "render") => PrintT(ToJson([hist |-> hist, inspect |-> inspect]))
 =============================================================================
